@@ -788,6 +788,17 @@ func (x *Exec) bindSpecVars(fi *FuncInfo, recv Value, args []Value) map[string]V
 			i++
 		}
 	}
+	// the names the contract was written with (positional): a renamed receiver or parameter keeps its clauses
+	if sp := fi.Spec; sp != nil && !sp.Extern {
+		if sp.RecvName != "" && recv.Kind != KNone {
+			vars[sp.RecvName] = recv
+		}
+		for k, n := range sp.Params {
+			if k < len(args) && n != "" && n != "_" {
+				vars[n] = args[k]
+			}
+		}
+	}
 	return vars
 }
 
